@@ -1,0 +1,11 @@
+//go:build !verif
+// +build !verif
+
+package main
+
+import (
+	"github.com/marekgalovic/anndb"
+)
+
+// Hook for the verification harness (build tag `verif`); a no-op without it.
+func verifInstall(server *anndb.Server) {}
